@@ -36,9 +36,15 @@ func parse(b []byte, callback func([]byte)) error {
 			quote = !quote
 
 		case open:
+			if quote {
+				continue // a bracket inside a string is data
+			}
 			brace++
 
 		case close:
+			if quote {
+				continue // a bracket inside a string is data
+			}
 			brace--
 			if brace == 0 {
 				json := make([]byte, i-last+1)
